@@ -352,6 +352,13 @@ fn gen_divisor(rng: &mut Rng, complex: bool, deg: usize) -> (Vec<C64>, String) {
         let m = rng.log10(-1.0, 3.0);
         d[deg] = if lead.norm() > 0.0 { lead / lead.norm() * m } else { rand_unit(rng, complex) * m };
     }
+    if deg >= 2 && rng.chance(0.06) {
+        // one lower coefficient that is non-zero but below the default zero tolerance (1e-12..1e-10):
+        // it still multiplies every quotient coefficient
+        let k = rng.below(deg);
+        d[k] = rand_unit(rng, complex) * rng.log10(-12.0, -10.0);
+        shape.push_str("+tiny-lower-coefficient");
+    }
     if deg >= 1 && rng.chance(0.06) {
         // one lower coefficient many orders of magnitude above the (non-negligible) leading one:
         // x^2 + 4e10 is as valid a divisor as any
